@@ -117,8 +117,9 @@ def run_property(pid, tier="quick", seed=0, only=None, verbose=False, do_bounded
             if rep is not None and rep.get("reproduced") is False:
                 undecided.append("obligation %s: spurious-countermodel (real code satisfies the contract on the model's input)" % oid)
                 continue
-            if base_ids and oid not in base_ids:
-                undecided.append("obligation %s fails but was never discharged on the reference tree (not in baseline)" % oid)
+            if oid not in base_ids and not (rep and rep.get("reproduced")):
+                undecided.append("obligation %s: solver found a candidate counter-model, but the obligation was never discharged on the "
+                                 "reference tree (not in baseline_obligations.json) and no failing input was reproduced" % oid)
                 continue
             k = match_known(pid, sig)
             if k:
